@@ -12,6 +12,7 @@
 import StVerif.Base
 import StVerif.Generated.Config
 import StVerif.Model.Search
+import StVerif.Model.Find
 
 namespace StVerif.Slice
 open StVerif StVerif.Search
@@ -41,31 +42,34 @@ inductive Rev where
   | pinned | fixed
   deriving DecidableEq, Repr, Inhabited
 
+/-- the part of `substr` after `start` has been normalised to `0 ≤ start ≤ max` and `count`
+    resolved from `ST_AUTO_SIZE`: clamp, `return *this` shortcut, allocate, copy -/
+def substrTail (rev : Rev) (s : List Nat) (count : Nat) (start : Int) : Outcome Res :=
+  let max := s.length
+  let count :=
+    match rev with
+    -- pinned: `if (start + count > max) count = max - start;`   (the sum wraps in size_t)
+    | .pinned => if wrap64 (start + (count : Int)) > max then wrap64 ((max : Int) - start) else count
+    -- fixed:  `if (count > max - start) count = max - start;`
+    | .fixed => if count > wrap64 ((max : Int) - start) then wrap64 ((max : Int) - start) else count
+  if start = 0 ∧ count = max then .ok (whole s)
+  else
+    -- `sub.m_buffer.allocate(count); copy(sub.data(), c_str() + start, count)`
+    if allocReq count > allocLimit then .throw .badAlloc
+    else if start.toNat + count > max + 1 then .oob
+    else .ok ⟨((s ++ [0]).drop start.toNat).take count, allocReq count⟩
+
 /-- `ST::string::substr(ST_ssize_t start, size_t count)`.
     `start ∈ [-2^63, 2^63)`, `count < 2^64` are the parameter types. -/
 def substr (s : List Nat) (start : Int) (count : Nat) (rev : Rev := .fixed) : Outcome Res :=
   let max := s.length
   let count := if count = SIZE_MAX then max else count
-  -- after the normalisation of `start` (now `0 ≤ start ≤ max`)
-  let tail (start : Int) : Outcome Res :=
-    let count :=
-      match rev with
-      -- pinned: `if (start + count > max) count = max - start;`   (the sum wraps in size_t)
-      | .pinned => if wrap64 (start + (count : Int)) > max then wrap64 ((max : Int) - start) else count
-      -- fixed:  `if (count > max - start) count = max - start;`
-      | .fixed => if count > wrap64 ((max : Int) - start) then wrap64 ((max : Int) - start) else count
-    if start = 0 ∧ count = max then .ok (whole s)
-    else
-      -- `sub.m_buffer.allocate(count); copy(sub.data(), c_str() + start, count)`
-      if allocReq count > allocLimit then .throw .badAlloc
-      else if start.toNat + count > max + 1 then .oob
-      else .ok ⟨((s ++ [0]).drop start.toNat).take count, allocReq count⟩
   if start < 0 then
     -- `start += max; if (start < 0) start = 0;`
     let start := toI64 (wrap64 (start + (max : Int)))
-    tail (if start < 0 then 0 else start)
+    substrTail rev s count (if start < 0 then 0 else start)
   else if wrap64 start > max then .ok emptyRes
-  else tail start
+  else substrTail rev s count start
 
 /-- `left(size)` -/
 def left (s : List Nat) (n : Nat) (rev : Rev := .fixed) : Outcome Res := substr s 0 n rev
@@ -131,47 +135,17 @@ inductive Sep where
   | str (b : List Nat)             -- `const ST::string &sep`
   deriving DecidableEq, Repr, Inhabited
 
-/-- `find_cs(haystack, size, ch)` (memchr) / `find_ci(haystack, size, ch)` -/
-def findChar (cs : CaseMode) (c : Nat) : (hay : List Nat) → (off : Nat) → Option Nat
-  | [], _ => none
-  | h :: t, off => if eqv cs h c then some off else findChar cs c t (off + 1)
+/-- the overload of `find` / `find_last` each form reaches (Model/Find.lean) -/
+def Sep.toNeedle : Sep → Needle
+  | .char c => .ch c
+  | .cstr p => .cstr p
+  | .str b => .str b
 
-/-- `find(sep, cs)` = `find(0, sep, cs)` in the three forms -/
-def findFirst (cs : CaseMode) (s : List Nat) : Sep → Int
-  | .char c =>
-    if 0 ≥ s.length then -1
-    else match findChar cs c s 0 with
-      | some i => (i : Int)
-      | none => -1
-  | .cstr none => -1
-  | .cstr (some p) =>
-    if p.headD 0 = 0 ∨ 0 ≥ s.length then -1 else find_ cs s 0 (cBytes p)
-  | .str b =>
-    if b.length = 0 ∨ 0 ≥ s.length then -1 else find_ cs s 0 b
+/-- `find(sep, cs)` in the three forms -/
+def findFirst (cs : CaseMode) (s : List Nat) (sep : Sep) : Int := findAll cs s sep.toNeedle
 
-/-- the loop of `find_last(max, char ch, cs)` (same shape as `_find_last`) -/
-def findLastCharLoop (cs : CaseMode) (s : List Nat) (endp : Nat) (c : Nat) :
-    (fuel : Nat) → (start : Nat) → (found : Option Nat) → Option Nat
-  | 0, _, found => found
-  | fuel + 1, start, found =>
-    match findChar cs c ((s.take endp).drop start) start with
-    | none => found
-    | some cp => if cp ≥ endp then found else findLastCharLoop cs s endp c fuel (cp + 1) (some cp)
-
-/-- `find_last(sep, cs)` = `find_last(ST_AUTO_SIZE, sep, cs)` in the three forms -/
-def findLast (cs : CaseMode) (s : List Nat) : Sep → Int
-  | .char c =>
-    if s.isEmpty then -1
-    else
-      let endp := if SIZE_MAX > s.length then s.length else SIZE_MAX
-      match findLastCharLoop cs s endp c (endp + 1) 0 none with
-      | some i => (i : Int)
-      | none => -1
-  | .cstr none => -1
-  | .cstr (some p) =>
-    if p.headD 0 = 0 ∨ s.isEmpty then -1 else findLast_ cs s SIZE_MAX (cBytes p)
-  | .str b =>
-    if b.length = 0 ∨ s.isEmpty then -1 else findLast_ cs s SIZE_MAX b
+/-- `find_last(sep, cs)` in the three forms -/
+def findLast (cs : CaseMode) (s : List Nat) (sep : Sep) : Int := findLastAll cs s sep.toNeedle
 
 /-- what `after_first` / `after_last` add to the match offset -/
 def skipOf (rev : Rev) (pos : Int) : Sep → Int
